@@ -1,4 +1,5 @@
 import Model.Sites
+import Model.Shared
 /-!
 # C20 — hand-written classification of the regenerated sites  (TRUSTED, by hand)
 
@@ -530,5 +531,50 @@ def tyingSorts (argued : List SortArg) (known : List (String × String × String
 def sortSitesWithoutFact (sites : List RangeSite) (facts : List SortFact) : List RangeSite :=
   sites.filter (fun s => s.summary == .appendSorted &&
     !facts.any (fun f => f.file == s.file && f.fn == s.fn && f.expr == s.expr && f.ord == s.ord))
+
+/-! ## references held in package-level variables
+
+`Generated.C20Shared.refs` lists every package-level variable that holds a reference (pointer, or
+interface initialised with a pointer, through a constructor if need be), the field paths of the struct
+behind it that some statement of the linked packages assigns, and how often the variable is used as a
+value (returned, passed, stored). Such a variable can change without any write through its own name —
+the receiver of the value mutates the pointee through its alias — so `C20PkgState` (writes through the
+name) says nothing about it. A reference with assigned fields that is handed out must be accounted for:
+
+* by the variable's own entry in `cells`, if that discipline is about the CONTENT of the variable
+  (`resetBeforeRead`, `restoredAtEnd`, `outOfScope`, or a listed `leaks`): whoever holds the alias
+  changes exactly the state that entry already speaks about. `memo` / `pureUse` / `lockOnly` /
+  `deadWrite` do NOT cover it: "filled once with a value that does not depend on who fills it" is
+  precisely what a hoisted error value looks like, and it is wrong as soon as the value is mutable;
+* or by an entry of `sharedArgued` (the assigned fields are never written through what is handed out). -/
+
+structure SharedEntry where
+  pkg : String
+  name : String
+  why : String
+
+/-- references argued frozen after publication: none at present -/
+def sharedArgued : List SharedEntry := []
+
+def Discipline.coversContent : Discipline → Bool
+  | .resetBeforeRead | .restoredAtEnd | .outOfScope | .leaks => true
+  | _ => false
+
+def sharedOK (tbl : List CellEntry) (known : List (String × String)) (argued : List SharedEntry)
+    (r : Model.Shared.SharedRef) : Bool :=
+  r.mutableFields.isEmpty || r.escapes == 0 ||
+  argued.any (fun e => e.pkg == r.pkg && e.name == r.name) ||
+  tbl.any (fun e => e.pkg == r.pkg && e.name == r.name && e.disc.coversContent &&
+    (e.disc.safe || known.contains (r.pkg, r.name)))
+
+/-- mutable references handed out of a package-level variable that nothing accounts for -/
+def badShared (tbl : List CellEntry) (known : List (String × String)) (argued : List SharedEntry)
+    (refs : List Model.Shared.SharedRef) : List Model.Shared.SharedRef :=
+  refs.filter (fun r => !sharedOK tbl known argued r)
+
+/-- entries of `sharedArgued` that no longer meet a handed-out mutable reference -/
+def staleShared (argued : List SharedEntry) (refs : List Model.Shared.SharedRef) : List String :=
+  (argued.filter (fun e => !refs.any (fun r => r.pkg == e.pkg && r.name == e.name &&
+    !r.mutableFields.isEmpty && r.escapes != 0))).map (fun e => e.pkg ++ "." ++ e.name)
 
 end C20Sites
